@@ -621,6 +621,7 @@ def extract():
     # parse_filesize: sequence of `if length > N && string.ends_with("sfx") { return match &string[..(length - N)].parse::<T>() { Ok(size) => Some((*size * A * B ...) as u64) ...`
     pf = find_fn(u, "parse_filesize")
     ladder = []
+    hows = set()
     i = 0
     while i < len(pf):
         if pf[i] == ("ident", "if") and pf[i + 1] == ("ident", "length") and pf[i + 2] == ("p", ">"):
@@ -647,7 +648,21 @@ def extract():
                 if blk[b] == ("ident", "Some"):
                     e2 = match_close(blk, b + 1)
                     inner = blk[b + 2:e2]
-                    nums = [t for k, t in inner if k == "num"]
+                    if ("ident", "scale_size") in inner:
+                        # Some(scale_size(<number text>, *size, A * B ...)): the multiplier is the last argument
+                        depth, last = 0, 0
+                        for q, tk in enumerate(inner):
+                            if tk[0] == "p" and tk[1] in "([{":
+                                depth += 1
+                            elif tk[0] == "p" and tk[1] in ")]}":
+                                depth -= 1
+                            elif tk == ("p", ",") and depth == 1:
+                                last = q
+                        nums = [t for k, t in inner[last:] if k == "num"]
+                        how = "scaled"
+                    else:
+                        nums = [t for k, t in inner if k == "num"]
+                        how = "product"
                     break
             mult = 1
             for x in nums:
@@ -658,6 +673,8 @@ def extract():
             if ty not in ("f64", "u64") or cut is None:
                 raise ExtractError("parse_filesize: cannot read rung for %r" % sfx)
             ladder.append((sfx[0], minlen, cut, ty, mult))
+            if ty == "f64":
+                hows.add(how)
             i = e + 1
         else:
             i += 1
@@ -672,6 +689,18 @@ def extract():
         "  (%s, %d, %d, %s, %d)" % (lean_str(s), ml, cut, "true" if ty == "f64" else "false", mult)
         for s, ml, cut, ty, mult in ladder) + "\n]")
     info["size_ladder"] = len(ladder)
+    if len(hows) != 1:
+        raise ExtractError("parse_filesize: float rungs computed in different ways: %r" % sorted(hows))
+    scaled = hows == {"scaled"}
+    if scaled:
+        # scale_size: plain decimals are scaled in u128 integers, everything else by one f64 multiplication
+        sc = find_fn(u, "scale_size")
+        words = {t for _, t in sc}
+        need = {"u128", "checked_pow", "checked_mul", "try_from", "split_once", "strip_prefix", "is_ascii_digit", "MAX"}
+        if not need <= words:
+            raise ExtractError("scale_size: unexpected body (missing %r)" % sorted(need - words))
+    out.append("/-- do the float rungs scale plain decimal numbers in integers (`scale_size`)? -/")
+    out.append("def sizeScaledInIntegers : Bool := %s" % ("true" if scaled else "false"))
 
     # format_filesize unit arms
     ff = find_fn(u, "format_filesize")
